@@ -68,15 +68,26 @@ func buildUniverse() []Obj {
 		arr("1x2", str("a"), chr("b")), arr("1x2", str("A"), chr("B")), vec(fix(1), fix(2), fix(3), fix(4)))
 	add(inst("c16-k", str("a")), inst("c16-k", str("a")), inst("c16-k", str("A")), inst("c16-k", str("b")), inst("c16-k2", str("a")),
 		inst("c16-k", fix(1)), inst("c16-k", num("double", "1.0")), inst("c16-k", l12), inst("c16-k", l12), inst("c16-k", list(fix(1), fix(3))))
-	// the lossy block: values that differ but collide once converted to a
-	// float (kept small: exact comparison with floats is C05's concern; here
-	// it is only probed for the transitivity of eql/equal/equalp)
-	add(num("fix", p53b), num("double", p53+".0"), num("fix", p53), num("ratio", "1/10"), num("double", "0.1"))
+	// values that differ but collide once converted to a float format
+	add(num("fix", p53b), num("double", p53+".0"), num("fix", p53), num("ratio", "1/10"), num("double", "0.1"),
+		num("ratio", "1/3"), num("double", "0.3333333333333333"), fix(16777217), num("single", "16777216.0"), fix(16777216),
+		num("big", "1180591620717411303425"), num("long", p70+".5"))
+	add(list(num("fix", p53b)), list(num("double", p53+".0")), vec(num("ratio", "1/10")), vec(num("double", "0.1")),
+		dot(fix(1), num("ratio", "1/3")), dot(fix(1), num("double", "0.3333333333333333")))
+	// ... and the same three-way collision inside every container equal/equalp descends into
+	f24, s24, g24 := fix(16777216), num("single", "16777216.0"), fix(16777217)
+	for _, w := range []func(Obj) Obj{
+		func(o Obj) Obj { return vec(o) },
+		func(o Obj) Obj { return list(vec(o)) },
+		func(o Obj) Obj { return list(o, fix(2)) },
+		func(o Obj) Obj { return arr("1x1", o) },
+		func(o Obj) Obj { return inst("c16-k", o) },
+		func(o Obj) Obj { return tab(fix(1), o) },
+	} {
+		add(w(f24), w(s24), w(g24))
+	}
 	return u
 }
-
-// lossyFrom is the index of the first object of the lossy block.
-var lossyFrom = len(universe) - 5
 
 // ---- seeded small universes ------------------------------------------------
 
@@ -92,7 +103,46 @@ var numFamilies = [][]Obj{
 	{num("ratio", "-7/8"), num("double", "-0.875")},
 	{num("big", "-"+p64), num("double", "-"+p64+".0")},
 	{fix(7)}, {num("double", "2.25")}, {num("ratio", "5/3")},
+	// near misses: different values that collide once converted to a float format
+	{num("fix", p53b)}, {num("fix", p53), num("double", p53+".0")}, {num("ratio", "1/10")}, {num("double", "0.1")}, {num("single", "0.1")},
+	{num("ratio", "1/3")}, {num("double", "0.3333333333333333")}, {fix(16777217)}, {fix(16777216), num("single", "16777216.0")},
 }
+
+// nearMiss maps a number to values that differ from it but collide with it
+// under a lossy conversion; used to derive related objects.
+var nearMiss = map[string][]Obj{
+	"fix:" + p53b:       {num("double", p53+".0"), num("fix", p53)},
+	"fix:" + p53:        {num("fix", p53b)},
+	"double:" + p53 + ".0": {num("fix", p53b)},
+	"ratio:1/10":        {num("double", "0.1"), num("single", "0.1")},
+	"double:0.1":        {num("ratio", "1/10"), num("single", "0.1")},
+	"single:0.1":        {num("ratio", "1/10"), num("double", "0.1")},
+	"ratio:1/3":         {num("double", "0.3333333333333333")},
+	"double:0.3333333333333333": {num("ratio", "1/3")},
+	"fix:16777217":      {num("single", "16777216.0"), fix(16777216)},
+	"fix:16777216":      {fix(16777217)},
+	"single:16777216.0": {fix(16777217)},
+}
+
+func nearOf(r *rand.Rand, o Obj) Obj {
+	if len(o.C) == 0 {
+		if n := nearMiss[o.K+":"+o.V]; n != nil {
+			return fw.Pick(r, n)
+		}
+		return o
+	}
+	kids := make([]Obj, len(o.C))
+	for i, c := range o.C {
+		if o.K == "tab" && i%2 == 0 {
+			kids[i] = c
+			continue
+		}
+		kids[i] = nearOf(r, c)
+	}
+	return o.withC(kids)
+}
+
+
 
 var strFamilies = [][]Obj{
 	{str("a"), str("A")}, {str("abc"), str("ABC"), str("Abc")}, {str("x1"), str("X1")}, {str("")}, {str("é"), str("É")},
@@ -206,6 +256,9 @@ func sibling(r *rand.Rand, o Obj, p int) Obj {
 }
 
 func mutate(r *rand.Rand, o Obj) Obj {
+	if n := nearOf(r, o); r.IntN(2) == 0 && n.Src() != o.Src() {
+		return n
+	}
 	switch r.IntN(8) {
 	case 0, 1:
 		return o // rebuilt copy: same description, another object
